@@ -1,4 +1,4 @@
-CONSTANTS Ks = {1, 2, 3}
+CONSTANTS Ks = {2, 3}
           Lean = FALSE
 INIT Init
 NEXT Next
